@@ -152,6 +152,10 @@ def _r1_scalar(ctx, f):
                 for tally in tallies:
                     if isinstance(g.target, ast.Name) and src(a.value.key) == g.target.id and _keys_of(f, g.iter, tally):
                         cands.append((a, tally, g.target.id, None, None))
+                    elif isinstance(g.target, ast.Tuple) and all(isinstance(e_, ast.Name) for e_ in g.target.elts) and isinstance(g.iter, ast.Call) and dotted(g.iter.func) == 'zip' \
+                            and len(g.iter.args) == len(g.target.elts) and src(a.value.key) == g.target.elts[0].id and _keys_of(f, g.iter.args[0], tally):
+                        # {L: base[i] for L, i, keep in zip(<keys>, <per-row index array>, <per-row mask>) if keep}: the zipped arrays are per-row values
+                        cands.append((a, tally, g.target.elts[0].id, None, 'zip'))
         if len(cands) != 1:
             return False
         a, tally, loc, rowname, _ = cands[0]
@@ -163,7 +167,25 @@ def _r1_scalar(ctx, f):
         other = [x for x in walk_no_nested(f) if x is not a and ((isinstance(x, (ast.Assign, ast.AugAssign)) and any(src(t_) == D or (isinstance(t_, ast.Subscript) and src(t_.value) == D) for t_ in (x.targets if isinstance(x, ast.Assign) else [x.target])))
                                                                  or (isinstance(x, ast.Call) and isinstance(x.func, ast.Attribute) and src(x.func.value) == D and x.func.attr in ('update', 'setdefault', 'pop', '__setitem__')))]
         cond = ast.Constant(value=True) if not g.ifs else g.ifs[0] if len(g.ifs) == 1 else ast.BoolOp(op=ast.And(), values=list(g.ifs))
-        return _r1_scalar_decide(ctx, f, a, tally, loc, rowname, D, rets, not other, [src(x)[:40] for x in other], cond, a.value.value, {}, src(g.iter))
+        env_ = {}
+        keys_src = src(g.iter)
+        extra_rows = set()
+        if _ == 'zip':
+            fdefs = {}
+            for a_ in walk_no_nested(f):
+                if isinstance(a_, ast.Assign) and len(a_.targets) == 1 and isinstance(a_.targets[0], ast.Name):
+                    fdefs.setdefault(a_.targets[0].id, []).append(a_.value)
+            for nm_, arr in zip([e_.id for e_ in g.target.elts[1:]], g.iter.args[1:]):
+                env_[nm_] = arr
+            # locals the arrays are computed from; the stacked vote matrix stands for the row of the position
+            for k_, v_ in fdefs.items():
+                if len(v_) == 1:
+                    if 'vstack' in src(v_[0]) and f'{tally}[' in src(v_[0]):
+                        extra_rows.add(k_)
+                    else:
+                        env_.setdefault(k_, v_[0])
+            keys_src = src(g.iter.args[0])
+        return _r1_scalar_decide(ctx, f, a, tally, loc, rowname, D, rets, not other, [src(x)[:40] for x in other], cond, a.value.value, env_, keys_src, extra_rows)
     if len(cands) != 1:
         return False
     l, tally, loc, rowname, store = cands[0]
@@ -187,14 +209,14 @@ def _r1_scalar(ctx, f):
                              reach_expr(l.body, store), store.value, env, src(l.iter))
 
 
-def _r1_scalar_decide(ctx, f, store, tally, loc, rowname, D, rets, ok, other, cond, base, env, keys_src):
+def _r1_scalar_decide(ctx, f, store, tally, loc, rowname, D, rets, ok, other, cond, base, env, keys_src, extra_rows=()):
     ctx.emit('C13-R1', ok, MOLECULE, rets[0], f'the consensus `{D}` starts empty and receives a base only through `{src(store)[:60]}` per tallied position' if ok else
              f'the consensus `{D}` is also filled outside the tie-guarded store ({other})', key='mask-applied',
              what='get_consensus: positions / bases are returned without the tie mask')
     ctx.emit('C13-R1', True, MOLECULE, store, f'votes of one position are the row `{tally}[{loc}]`', key='vote-matrix', nontrivial=False)
     ctx.emit('C13-R1', True, MOLECULE, store, f'the decided positions are all keys of the tally `{tally}` (`{keys_src[:60]}`)', key='all-tallied-positions',
              what='get_consensus: tallied positions are dropped before the majority decision')
-    row_exprs = {f'{tally}[{loc}]'} | ({rowname} if rowname else set())
+    row_exprs = {f'{tally}[{loc}]'} | ({rowname} if rowname else set()) | set(extra_rows)
     idx = base.slice if isinstance(base, ast.Subscript) and isinstance(base.value, ast.Constant) and base.value.value == 'ACGTN' else None
     if cond is None or idx is None:
         ctx.emit('C13-R1', False, MOLECULE, store, f'stored base `{src(base)[:60]}` is not an index into the base order ACGTN', key='mask-semantics', undecided=True)
@@ -492,10 +514,12 @@ def r5(ctx):
              key='no-base-filter-per-read', what='read_to_consensus_dict filters calls by base / quality before mate arbitration')
     # the default mode: with dove_safe False no window is applied and single-end fragments are not refused
     f = ctx.fn(SEQUTILS, 'get_consensus_dictionaries')
-    rcalls = [c_ for c_ in walk_no_nested(f) if isinstance(c_, ast.Call) and last_name(dotted(c_.func) or '') == 'read_to_consensus_dict' and len(c_.args) >= 3]
+    from ..util import arg as _arg
+    rcalls = [c_ for c_ in walk_no_nested(f) if isinstance(c_, ast.Call) and last_name(dotted(c_.func) or '') == 'read_to_consensus_dict'
+              and _arg(c_, 1, 'start') is not None and _arg(c_, 2, 'end') is not None]
     if not rcalls:
         raise AnalysisError('get_consensus_dictionaries: read_to_consensus_dict calls not found')
-    names = {a_.id for c_ in rcalls for a_ in c_.args[1:3] if isinstance(a_, ast.Name)}
+    names = {a_.id for c_ in rcalls for a_ in (_arg(c_, 1, 'start'), _arg(c_, 2, 'end')) if isinstance(a_, ast.Name)}
     rs = explore(f.body, mk_atoms({'dove_safe': False}), names=names, upto=rcalls[0])
     vals = {tuple(sorted((k_, src(v_)) for k_, v_ in r['env'].items())) for r in rs}
     ok = bool(rs) and all(all(src(v_) == 'None' for v_ in r['env'].values()) and len(r['env']) == len(names) for r in rs)
